@@ -549,6 +549,12 @@ def _annotation_roots(pb, rng, size):
     )
     g = coll["parent"]["genome"]
     L = len(g["seq"])
+    # some coding transcripts get a real ORF, often with an alternative start codon: answers that depend on the
+    # translation table (first residue, start-codon questions) then differ between tables
+    for gene_ in coll["genes"]:
+        for t_ in gene_["transcripts"]:
+            if t_.get("cds_starts") and rng.random() < 0.4:
+                g["seq"] = specs.plant_orf(g["seq"], t_, rng, p_start=0.9, p_stop=0.7, start_codons=("ATG", "TTG", "CTG", "GTG", "ATT", "ATA"))
     if rng.random() < 0.35 and coll["parent"]["mode"] in ("chrom", "chunk"):
         coll["variant_collections"] = [specs.gen_variant_collection(rng, 0, L, idx="0")]
         if coll["parent"]["mode"] == "chunk":
@@ -697,11 +703,15 @@ def gen_plan(rng, check="C10", size=1, max_steps=60, known_avoid=()):
     sessions = []
     style = rng.random()
     r0 = rng.random()
-    focused = r0 < 0.30
-    covering = 0.30 <= r0 < 0.52
-    repeat_op = 0.52 <= r0 < 0.65
-    cursors = 0.65 <= r0 < 0.72
-    inherit = 0.72 <= r0 < 0.82
+    focused = r0 < 0.27
+    covering = 0.27 <= r0 < 0.47
+    repeat_op = 0.47 <= r0 < 0.60
+    cursors = 0.60 <= r0 < 0.66
+    inherit = 0.66 <= r0 < 0.76
+    thrash = 0.76 <= r0 < 0.83  # memo thrash on a CDS / transcript (argument-keyed memos with more tuples than slots)
+    if thrash:
+        style = 0.4
+        nsess = rng.randint(1, 2)
     if focused:
         nsess = rng.randint(1, 3)
         style = 1.0
